@@ -16,6 +16,8 @@ pub struct SpecOk {
     /// the input uses a form the vocabulary does not have to accept (chmod's fuller symbolic grammar):
     /// it may be refused, but if it is accepted the tree must be this one
     pub may_refuse: bool,
+    /// some option stood inside the expression (there it "behaves as -true")
+    pub inner_options: bool,
     pub tree: Expression,
 }
 
@@ -1198,6 +1200,7 @@ pub fn parse_detail(text: &str) -> (Spec, Option<Failure>) {
         GlobalOption::MinDepth(n) => limits.push((false, *n)),
     };
     let may_refuse = lexed.may_refuse;
+    let mut inner_options = false;
     let mut toks = vec![];
     let mut leading = true;
     for tk in lexed.toks {
@@ -1205,6 +1208,7 @@ pub fn parse_detail(text: &str) -> (Spec, Option<Failure>) {
             Tok::Opt(o) => {
                 reg(&o);
                 if !leading {
+                    inner_options = true;
                     toks.push(Tok::Prim(t(Test::True)));
                 }
             }
@@ -1215,10 +1219,10 @@ pub fn parse_detail(text: &str) -> (Spec, Option<Failure>) {
         }
     }
     if toks.is_empty() {
-        return (Spec::Ok(SpecOk { depth, threads, depth_limits: limits, may_refuse, tree: t(Test::True) }), None);
+        return (Spec::Ok(SpecOk { depth, threads, depth_limits: limits, may_refuse, inner_options, tree: t(Test::True) }), None);
     }
     match grammar(&toks) {
-        Some(tree) => (Spec::Ok(SpecOk { depth, threads, depth_limits: limits, may_refuse, tree }), None),
+        Some(tree) => (Spec::Ok(SpecOk { depth, threads, depth_limits: limits, may_refuse, inner_options, tree }), None),
         None => (Spec::Err("not a sentence of the operator grammar".into()), Some(Failure::Other("grammar".into()))),
     }
 }
